@@ -232,6 +232,7 @@ class Ppar(EventPattern):
             nexttime = queue.peek()[0]
             if nexttime > 0.0:
                 outevent = evt.silent(nexttime, inevent)
+                outevent['delta'] = nexttime
                 inevent = yield outevent
                 now = nexttime
         while not queue.empty():
@@ -250,6 +251,8 @@ class Ppar(EventPattern):
                     # // That child stream ended, so rest until next one.
                     nexttime = queue.peek()[0]
                     outevent = evt.silent(nexttime - now, inevent)
+                    # Queue times already include the children's stretch.
+                    outevent['delta'] = nexttime - now
                     inevent = yield outevent
                     now = nexttime
                 else:
